@@ -54,7 +54,8 @@ fn ctx(u: &mut Unstructured<'_>, allow_long: bool) -> Result<BytesSpec> {
 
 impl Arb for Pattern {
     fn arb(u: &mut Unstructured<'_>) -> Result<Self> {
-        Ok(match u.int_in_range(0..=9u8)? {
+        Ok(match u.int_in_range(0..=10u8)? {
+            10 => Pattern::NttZeroBlock { k: u.int_in_range(0..=7)?, point: u.arbitrary()? },
             9 => Pattern::RandomExtreme(u64::from(u.arbitrary::<u8>()?)),
             0 => Pattern::AllMin,
             1 => Pattern::AllMax,
@@ -111,6 +112,7 @@ impl Arb for ForgeSpec {
             0 => ZKind::Small,
             1 => ZKind::Zero,
             2 => ZKind::AllExtreme,
+            3 => ZKind::SolvedW { i: u.arbitrary()?, j: u.arbitrary()?, target: u.arbitrary()?, hinted: u.arbitrary()? },
             _ => ZKind::Uniform,
         };
         let hkind = match u.int_in_range(0..=7u8)? {
